@@ -23,7 +23,7 @@ from ..layout import Layout
 from ..verdict import Acc, h64
 
 SIZES = {"quick": dict(n_pairs=160, long_merges=10, ops=14),
-         "thorough": dict(n_pairs=1500, long_merges=60, ops=30)}
+         "thorough": dict(n_pairs=3000, long_merges=60, ops=30)}
 
 LAYOUT_ATTRS = ["address_space_bounds", "num_os", "os_idx_map",
                 "num_services", "service_idx_map", "num_processes",
